@@ -339,6 +339,8 @@ func opaqueDoc(t *rapid.T) map[string]interface{} {
 		return rapid.SampledFrom([]map[string]interface{}{
 			{}, {"publicKey": []interface{}{}}, {"service": []interface{}{}}, {"alsoKnownAs": []interface{}{}},
 			{"publicKey": []interface{}{}, "service": []interface{}{}, "alsoKnownAs": []interface{}{}},
+			// null sections: what a resolved document shows once the last key or service has been removed
+			{"publicKey": nil}, {"service": nil, "publicKey": nil}, {"publicKey": nil, "service": []interface{}{}, "alsoKnownAs": nil},
 		}).Draw(t, "contentless")
 	}
 	d := map[string]interface{}{}
@@ -368,8 +370,13 @@ func opaqueDoc(t *rapid.T) map[string]interface{} {
 		}
 	}
 	if rapid.IntRange(0, 4).Draw(t, "opaqueEmptySection") == 0 {
-		// a section given as an empty list is the same document as one without that section
-		d[rapid.SampledFrom([]string{"service", "publicKey"}).Draw(t, "emptySection")] = []interface{}{}
+		// a section given as an empty list - or as null, which is how the library's own resolved documents show a section
+		// whose last entry has been removed - is the same document as one without that section
+		d[rapid.SampledFrom([]string{"service", "publicKey"}).Draw(t, "emptySection")] = rapid.SampledFrom([]interface{}{[]interface{}{}, nil}).Draw(t, "emptyAs")
+	}
+	if rapid.IntRange(0, 5).Draw(t, "opaqueAwkwardAlias") == 0 {
+		// a URI that net/url cannot parse although RFC 3986 has it (a percent-encoded octet in the host name)
+		d["alsoKnownAs"] = append(us, "http://ex%61mple.com/", "did:example:%41bc")
 	}
 	if rapid.IntRange(0, 2).Draw(t, "opaqueAwkward") == 0 {
 		// any JSON member name is a legitimate member of an opaque document, also one that needs escaping as a JSON
